@@ -300,6 +300,22 @@ def h_bintest(ctx, target_only, two_chrom=False, anti_name="Antitarget"):
             ctx.cover("no hit")
     if target_only:
         ctx.claim(not [k for k in got if k == (bins[1][0], bins[1][1])], "off-target bins are excluded when asked")
+    # the same tables tested again (a second alpha scan, segmetrics after bintest): the bin table
+    # handed in still holds the caller's log2, and the answer is the same
+    ctx.claim(And(*[approx(a, b) for a, b in zip(list(cna.data["log2"]), logs)]), "the bin table handed to bintest still holds its own log2 afterwards")
+    bintest.norm = _NormStub(orig)
+    try:
+        hits2 = bintest.do_bintest(cna, sega, alpha, target_only)
+    except Exception as exc:
+        claim_raised(ctx, "do_bintest (second call)", exc)
+        return
+    finally:
+        bintest.norm = orig
+    got2 = {(r.chromosome, r.start): r for r in hits2.data.itertuples(index=False)}
+    ctx.claim(sorted(got2) == sorted(got), "testing the same tables a second time returns the same bins")
+    for k in got:
+        if k in got2:
+            ctx.claim(And(approx(got2[k].p_bintest, got[k].p_bintest), approx(got2[k].log2, got[k].log2)), "testing the same tables a second time returns the same p and residual")
 
 
 def h_bivar_outlier(ctx, n, side):
